@@ -47,6 +47,16 @@ def run(tier):
         else:
             sig = "%s %s" % (e["ev"], e.get("smiles"))
         rep.fail(clause, sig, detail=e, replay={"event": e}, group=grp)
+    if tier == "thorough":
+        def corrupt(e):
+            if e["ev"] == "compare" and e["verdict"] == "Balance":
+                e["verdict"] = "Products"
+                return e
+            if e["ev"] == "decompose" and "H" in e["out"]:
+                e["out"]["H"] += 1
+                return e
+            return None
+        common.binding_selftest(rep, "Composition_Trace", log, corrupt)
     for e in list(events.values())[:3] + [events[len(pairs) + 5]]:
         rep.sample({k: e[k] for k in e if k != "atoms"})
     rep.extra.update({"pairs_enumerated_by_tlc": len(pairs), "molecules_decomposed": info["molecules"],
